@@ -867,7 +867,15 @@ def _(m, name=""):
     f = getattr(F, name)
     x = m.img("data", S=tuple(2 * s for s in m.S) if name == "downsample" else None)
     sg = m.t("sigma_t", torch.tensor([0.7] * m.D))
-    return [
+    S = tuple(x.shape[2:])
+    gT, gF = m.grid("grid_acT", ac=True, S=S), m.grid("grid_acF", ac=False, S=S)
+    grid_forms = []
+    for gname, g in (("acT", gT), ("acF", gF)):
+        for ac in (True, False, None):
+            for lv in (1, -1, 0):
+                kw = {} if ac is None else {"align_corners": ac}
+                grid_forms.append((f"grid={gname},ac={ac},levels={lv}", (lambda g, lv, kw: lambda: f(x, lv, grid=g, **kw))(g, lv, kw)))
+    return grid_forms + [
         ("levels=1", lambda: f(x, 1)),
         ("levels=0", lambda: f(x, 0)),
         ("levels=-1", lambda: f(x, -1)),
